@@ -221,4 +221,4 @@ def run(ctx, params):
 def plan(tier, seed):
     if tier == "quick":
         return [{"directed": True}] + [{"shard": i, "cases": 45, "judged_per_case": 6, "fault_fraction": 0.12, "lines_per_call": 60} for i in range(16)]
-    return [{"directed": True}] + [{"shard": i, "cases": 700, "judged_per_case": 8, "fault_fraction": 0.15, "lines_per_call": 400} for i in range(32)]
+    return [{"directed": True}] + [{"shard": i, "cases": 500, "judged_per_case": 8, "fault_fraction": 0.15, "lines_per_call": 400} for i in range(32)]
